@@ -4,8 +4,8 @@ Confirm a seeded change independently (applies, compiles, unit tests pass, demo 
 run our quick check(s) against it, and file it under /verif/seeded/<seed-id>/."""
 import json, os, shutil, subprocess, sys
 src, sid, props = sys.argv[1:4]
-W = "/tmp/seedchk"
-BASE_B = "/tmp/seedchk_base_b"
+W = os.environ.get("SEEDCHK_DIR", "/tmp/seedchk")
+BASE_B = W + "_base_b"
 head = subprocess.check_output(["git", "-C", "/repo", "rev-parse", "HEAD"], text=True).strip()
 def sh(cmd, **kw):
     return subprocess.run(cmd, shell=True, text=True, capture_output=True, **kw)
@@ -21,7 +21,7 @@ if not os.path.exists(stamp) or open(stamp).read() != head:
 inc = f"-I{W}/include -I{W}/src -I{W}/include/teakra/impl"
 demo = os.path.join(src, "demo.cpp")
 res = {}
-r = sh(f"g++ -std=c++17 -O1 {inc} {demo} {BASE_B}/src/libteakra.a -lpthread -o /tmp/seed_demo_base && /tmp/seed_demo_base")
+r = sh(f"g++ -std=c++17 -O1 {inc} {demo} {BASE_B}/src/libteakra.a -lpthread -o {W}_demo_base && {W}_demo_base")
 res["demo_unchanged_rc"] = r.returncode
 r = sh(f"git -C {W} apply {os.path.join(src, 'patch.diff')}")
 assert r.returncode == 0, "patch does not apply: " + r.stderr
@@ -32,7 +32,7 @@ res["builds"] = r.returncode == 0
 r = sh(f"{B}/tests/teakra_tests")
 res["unit_tests_rc"] = r.returncode
 res["unit_tests_tail"] = r.stdout.strip().splitlines()[-1] if r.stdout.strip() else ""
-r = sh(f"g++ -std=c++17 -O1 {inc} {demo} {B}/src/libteakra.a -lpthread -o /tmp/seed_demo_mut && /tmp/seed_demo_mut")
+r = sh(f"g++ -std=c++17 -O1 {inc} {demo} {B}/src/libteakra.a -lpthread -o {W}_demo_mut && {W}_demo_mut")
 res["demo_changed_rc"] = r.returncode
 res["demo_changed_out"] = (r.stdout + r.stderr).strip()[:400]
 ok = res["demo_unchanged_rc"] == 0 and res["builds"] and res["unit_tests_rc"] == 0 and res["demo_changed_rc"] != 0
@@ -45,7 +45,7 @@ if ok:
         lines = [l for l in r.stdout.splitlines() if l.startswith(("VIOLATION", "  signature", "  detail", "["))]
         checks[pr] = {"rc": r.returncode, "verdict": "caught" if r.returncode == 1 else "missed" if r.returncode == 0 else "broken", "output": lines[:6]}
 res["checks_quick"] = checks
-sh(f"git -C {W} checkout -- . && rm -rf {B} /tmp/seed_demo_base /tmp/seed_demo_mut")
+sh(f"git -C {W} checkout -- . && rm -rf {B} {W}_demo_base {W}_demo_mut")
 if ok:
     d = os.path.join("/verif/seeded", sid)
     os.makedirs(d, exist_ok=True)
